@@ -169,6 +169,10 @@ def interfaceNameF (n : Nat) : Input → Option (Str × Input)
       | none => none
     else none
 
+/-- the lexical rules with the fuel `parse` would supply -/
+def fieldName (s : Input) : Option (Str × Input) := fieldNameF s.length s
+def interfaceName (s : Input) : Option (Str × Input) := interfaceNameF s.length s
+
 /-- a single expected character `['x']` -/
 def chr (x : Char) : Input → Option Input
   | c :: r => if c = x then some r else none
@@ -213,19 +217,19 @@ def vstructF (n : Nat) (ty : Input → Option (Ty × Input)) (s : Input) : Optio
 
 /-- rule `btype` -/
 def btypeF (n : Nat) (ty : Input → Option (Ty × Input)) (s : Input) : Option (Ty × Input) :=
-  match lit "bool".toList s with
+  match lit ['b', 'o', 'o', 'l'] s with
   | some r => some (.bool, r)
   | none =>
-  match lit "int".toList s with
+  match lit ['i', 'n', 't'] s with
   | some r => some (.int, r)
   | none =>
-  match lit "float".toList s with
+  match lit ['f', 'l', 'o', 'a', 't'] s with
   | some r => some (.float, r)
   | none =>
-  match lit "string".toList s with
+  match lit ['s', 't', 'r', 'i', 'n', 'g'] s with
   | some r => some (.string, r)
   | none =>
-  match lit "object".toList s with
+  match lit ['o', 'b', 'j', 'e', 'c', 't'] s with
   | some r => some (.object, r)
   | none =>
   match name s with
@@ -245,19 +249,19 @@ def typeF : Nat → Input → Option (Ty × Input)
     match btypeF n (typeF n) s with
     | some x => some x
     | none =>
-    match (lit "[]".toList s).bind (typeF n) with
+    match (lit ['[', ']'] s).bind (typeF n) with
     | some (t, r) => some (.array t, r)
     | none =>
-    match (lit "[string]".toList s).bind (typeF n) with
+    match (lit ['[', 's', 't', 'r', 'i', 'n', 'g', ']'] s).bind (typeF n) with
     | some (t, r) => some (.dict t, r)
     | none =>
-    match (lit "?".toList s).bind (btypeF n (typeF n)) with
+    match (lit ['?'] s).bind (btypeF n (typeF n)) with
     | some (t, r) => some (.option t, r)
     | none =>
-    match ((lit "?".toList s).bind (lit "[]".toList)).bind (typeF n) with
+    match ((lit ['?'] s).bind (lit ['[', ']'])).bind (typeF n) with
     | some (t, r) => some (.option (.array t), r)
     | none =>
-    match ((lit "?".toList s).bind (lit "[string]".toList)).bind (typeF n) with
+    match ((lit ['?'] s).bind (lit ['[', 's', 't', 'r', 'i', 'n', 'g', ']'])).bind (typeF n) with
     | some (t, r) => some (.option (.dict t), r)
     | none => none
 
@@ -287,23 +291,23 @@ def memberHeadF (n : Nat) (kw : Str) (s : Input) : Option ((Str × Str) × Input
 
 /-- rule `vtypedef` (two alternatives: struct body, then enum body) -/
 def vtypedefF (n : Nat) (s : Input) : Option (Member × Input) :=
-  match (memberHeadF n "type".toList s).bind fun (h, s1) =>
+  match (memberHeadF n ['t', 'y', 'p', 'e'] s).bind fun (h, s1) =>
       (vstructF n (typeF n) s1).map fun (v, r) => (Member.mk h.2 h.1 (.typeStruct v), r) with
   | some x => some x
   | none =>
-    (memberHeadF n "type".toList s).bind fun (h, s1) =>
+    (memberHeadF n ['t', 'y', 'p', 'e'] s).bind fun (h, s1) =>
       (venumF n s1).map fun (v, r) => (Member.mk h.2 h.1 (.typeEnum v), r)
 
 /-- rule `error` -/
 def errorF (n : Nat) (s : Input) : Option (Member × Input) :=
-  (memberHeadF n "error".toList s).bind fun (h, s1) =>
+  (memberHeadF n ['e', 'r', 'r', 'o', 'r'] s).bind fun (h, s1) =>
     (vstructF n (typeF n) s1).map fun (v, r) => (Member.mk h.2 h.1 (.error v), r)
 
 /-- rule `method`: … i:vstruct wce* "->" wce* o:vstruct -/
 def methodF (n : Nat) (s : Input) : Option (Member × Input) :=
-  (memberHeadF n "method".toList s).bind fun (h, s1) =>
+  (memberHeadF n ['m', 'e', 't', 'h', 'o', 'd'] s).bind fun (h, s1) =>
     (vstructF n (typeF n) s1).bind fun (i, s2) =>
-      (lit "->".toList (wceStarF n s2).2).bind fun s3 =>
+      (lit ['-', '>'] (wceStarF n s2).2).bind fun s3 =>
         (vstructF n (typeF n) (wceStarF n s3).2).map fun (o, r) => (Member.mk h.2 h.1 (.method i o), r)
 
 /-- rule `member`: method / vtypedef / error -/
@@ -322,7 +326,7 @@ def eolSep : Input → Option Input := fun x => (eol x).map (·.2)
     d:$(wce()*) "interface" wce()+ n:$interface_name() eol() mt:(member() ++ eol()) wce()* -/
 def parseInterfaceF (n : Nat) (s : Input) : Option (Parsed × Input) :=
   let d := wceStarF n s
-  match lit "interface".toList d.2 with
+  match lit ['i', 'n', 't', 'e', 'r', 'f', 'a', 'c', 'e'] d.2 with
   | none => none
   | some s1 =>
     match wcePlusF n s1 with
